@@ -33,6 +33,9 @@ pub fn eval_case(case: &Case) -> Result<Vec<(Tri, reference::RSet, bool)>, Outco
                 // a resource limit of the regex crate, not a statement about the rule language
                 return Err(Outcome::Skip("regex size limit".into()));
             }
+            if refrule.loader_may_reject {
+                return Err(Outcome::Skip("integer constant outside the signed 64-bit range refused".into()));
+            }
             return Err(Outcome::Violation(format!("loader rejects a rule the language defines: {e}")));
         }
         Load::Panicked(p) => return Err(Outcome::Violation(format!("loader panicked: {p}"))),
